@@ -16,6 +16,7 @@ RULE = ("cases = (calendar mode, TimePoint constructor kwargs, Duration "
         "random points/durations; a case is non-trivial when the reference "
         "model says the result lies on another calendar day or in another "
         "hour than p; distinct = distinct (mode, op, p-fields, d-fields)")
+RUN_REPO_SUITE = True   # thorough tier: repo tests under these monitors
 DECIDING = ["add.post", "sub.post"]
 MIN_EVALS = {"add.post": 3000, "tick_over.post": 1000}
 ASSUMPTIONS = [
